@@ -1,9 +1,9 @@
 #!/bin/bash
 # Re-evaluates every seeded change under /verif/seeded against the current /repo HEAD and the current checks.
 cd /verif
-declare -A EXTRA=( [C01-2]="C14" [C03-1]="C02" [C03-2]="C18" [C10-2]="C14" [C11-1]="C14" [C11-2]="C12" [C14-1]="C10" [C18-1]="C03" [C09-1]="C12" )
+declare -A EXTRA=( [C01-2]="C14" [C03-1]="C02" [C03-2]="C18" [C10-2]="C14" [C11-1]="C14" [C11-2]="C12" [C14-1]="C10" [C18-1]="C03" [C09-1]="C12" [C05-1b]="C12" [C12-1b]="C05" [C02-1b]="C11" )
 for d in seeded/*/; do
-  id=$(basename "$d"); prop=${id%-*}; i=${id#*-}
+  id=$(basename "$d"); prop=${id%-*}; i=${id#*-}; suffix=${i//[0-9]/}; i=${i//[a-z]/}
   rm -f "$d"/mutant*.diff "$d"/demo[0-9]_test.go "$d"/note[0-9].md
-  tools/eval_mutant.sh "$prop" "/verif/seeded/$id" "$i" $prop ${EXTRA[$id]:-} 2>&1 | tail -1
+  SEED_SUFFIX=$suffix tools/eval_mutant.sh "$prop" "/verif/seeded/$id" "$i" $prop ${EXTRA[$id]:-} 2>&1 | tail -1
 done
